@@ -676,8 +676,11 @@ package engine
 //@ ---------------------------------------------------------------- catch/3, throw/1, call/N (C03, C04)
 
 //@ func (*Env).Unify
-//@   trusted
+//@   property C02
 //@   modifies nothing
+//@   bind uenv, uok = (*Env).unify#1
+//@   at-call (*Env).unify requires[unification-without-the-occurs-check-of-the-same-terms-in-the-same-environment] a0 == e && a1 == x && a2 == y && !a3
+//@   ensures[its-result] called(uenv) && result0 == uenv && result1 == uok
 
 //@ spec abstract resolve(e *Env, t Term) Term
 
